@@ -268,6 +268,8 @@ enum Sop {
 #[derive(Clone, Debug)]
 enum Cop {
     Prespawn(u32),
+    /// as `Prespawn`, but the entity is spawned WITH the `Replicated` marker (a predicted entity built from the game's bundle)
+    PrespawnMarked(u32),
     Despawn(u32),
     /// server entity, insert MA, insert MB: markers go on the client's entity for that server entity (if it has one)
     Mark(Entity, bool, bool),
@@ -691,6 +693,12 @@ fn apply_cops(world: &mut World) {
             Cop::Prespawn(pc) => {
                 if !world.resource::<Pre>().0.contains_key(&pc) {
                     let e = world.spawn_empty().id();
+                    world.resource_mut::<Pre>().0.insert(pc, e);
+                }
+            }
+            Cop::PrespawnMarked(pc) => {
+                if !world.resource::<Pre>().0.contains_key(&pc) {
+                    let e = world.spawn(Replicated).id();
                     world.resource_mut::<Pre>().0.insert(pc, e);
                 }
             }
@@ -1450,6 +1458,7 @@ impl Sim {
                 let c: usize = t[1].parse().unwrap();
                 let op = match t[2] {
                     "prespawn" => Cop::Prespawn(t[3].parse().unwrap()),
+                    "prespawnr" => Cop::PrespawnMarked(t[3].parse().unwrap()),
                     "despawn" => Cop::Despawn(t[3].parse().unwrap()),
                     "mark" => {
                         let id: u32 = t[3].parse().unwrap();
